@@ -7,6 +7,7 @@ package harness
 // and compared with the same seed in an empty directory.
 
 import (
+	"bytes"
 	"fmt"
 	"os"
 	"path/filepath"
@@ -139,6 +140,9 @@ func c17Variants(valid []byte, quick bool) (out [][]c17File, labels []string) {
 	add("symlink", c17File{special: "symlink"})
 	add("binary", one([]byte{0, 1, 2, 0xff, 0xfe, '\n', 0x80}))
 	add("long-line", one([]byte(strings.Repeat("9", 200000))))
+	// megabytes of garbage without a single line break, and a multi-megabyte comment line in front of valid data
+	add("huge-garbage-without-newline", one(bytes.Repeat([]byte("garbage "), 2<<20)))
+	add("huge-comment-line+valid", one(append(append([]byte("# "), bytes.Repeat([]byte("L"), 8<<20)...), append([]byte("\n"), valid...)...)))
 	// several at once
 	add("garbage+valid", one([]byte("garbage")), one(valid))
 	add("valid+garbage", one(valid), one([]byte("garbage")))
@@ -229,6 +233,10 @@ func c17Units(tier string, seed int64) []Unit {
 						continue
 					}
 					nIgn := len(reIgnoring.FindAllString(log.TB.LogText(), -1))
+					// "ignored with a log line": a line, not a dump of the file
+					if lt := log.TB.LogText(); len(lt) > 1<<20 {
+						viol("log-dumps-the-unusable-file", fmt.Sprintf("the run logged %d bytes for %d file(s) that could not be used", len(lt), len(files)))
+					}
 					k := 0
 					if len(env.Seeds) > 0 {
 						k = env.Seeds[0].InvIdx
